@@ -473,6 +473,18 @@ def minimise(pool, hist, results, key, obs):
                 if chunk == 1:
                     break
                 n = min(len(prefix), n * 2)
+        # shrink the texts: first the predecessors (the op's own answer alone stays `alone`),
+        # then the op itself (its alone answer is recomputed)
+        for k in range(len(prefix)):
+            def pred_k(o, k=k):
+                return run_process(s, prefix[:k] + [o] + prefix[k + 1:] + [op])[0][-1] != alone
+            prefix[k] = _shrink_text(prefix[k], pred_k, budget=15)
+
+        def pred_op(o):
+            rs = run_process(s, prefix + [o])[0][-1]
+            return rs != _alone(o, s)
+        op = _shrink_text(op, pred_op, budget=15)
+        alone = _alone(op, s)
         after = run_process(s, prefix + [op])[0][-1]
         return {"kind": "history", "op": _core(op), "label": op["label"], "hashseed": s,
                 "prefix": [_core(o) for o in prefix], "expect": [alone, after]}
